@@ -65,6 +65,12 @@ def m_any_str(ip, callee, args):
     ip.solver.add('(<= (str.len %s) %d)' % (t.s, args[1])); ip.solver.add('(str.in_re %s %s)' % (t.s, PRINTABLE))
     add_fact(ip, t, 'printable')
     return t
+def m_any_token(ip, callee, args):
+    t = ip.fresh('String', val_of_strlike(args[0]), 'str')
+    ip.solver.add('(<= (str.len %s) %d)' % (t.s, args[1]))
+    ip.solver.add('(str.in_re %s (re.* (re.union (re.range "!" ":") (re.range "<" "{") (re.range "}" "~"))))' % t.s)
+    for f in ('printable', 'no: ', 'no:;', 'no:|'): add_fact(ip, t, f)
+    return t
 def m_choice(ip, callee, args):
     n = args[1]
     t = ip.fresh('Int', val_of_strlike(args[0]), 'choice'); ip.solver.add('(and (>= %s 0) (< %s %d))' % (t.s, t.s, n))
@@ -245,13 +251,22 @@ def split_once(ip, s, sep):
     return (head, rest)
 def m_splitn_next(ip, callee, args):
     it = args[0].cell.v
-    s, n, sep, done = [c.v for c in it.fields]
+    s, n, sep, done = [c.v for c in it.fields[:4]]
     if done or n == 0: return OPT_NONE()
     if n == 1:
         it.fields[3].v = True; return opt_some(s)
-    r = split_once(ip, s, sep)
+    if len(it.fields) < 5: it.fields.append(Cell(0))
+    if is_sym(s) and it.fields[4].v >= int(ip.params.get('splitlimit', 3)):
+        # stated bound: at most `splitlimit` separators are located inside symbolic text per split iterator
+        c = m_contains(ip, callee, [s, sep])
+        if c is True or (c is not False and ip.branch(c)):
+            ip.res.covers.add('bound:split-cut'); raise Infeasible()
+        r = None
+    else:
+        r = split_once(ip, s, sep)
     if r is None:
         it.fields[3].v = True; return opt_some(s)
+    if is_sym(s): it.fields[4].v += 1
     it.fields[0].v = r[1]; it.fields[1].v = n - 1
     return opt_some(r[0])
 
@@ -370,7 +385,7 @@ def install(ip):
     M = ip.models
     for ty in ('i32', 'i64', 'u8', 'u64', 'u128', 'usize'):
         M['vsym::any_' + ty] = m_any_int(ty)
-    M['vsym::any_bool'] = m_any_bool; M['vsym::any_str'] = m_any_str; M['vsym::choice'] = m_choice; M['vsym::param'] = m_param
+    M['vsym::any_bool'] = m_any_bool; M['vsym::any_str'] = m_any_str; M['vsym::any_token'] = m_any_token; M['vsym::choice'] = m_choice; M['vsym::param'] = m_param
     M['vsym::assume'] = m_assume; M['vsym::check'] = m_check; M['vsym::cover'] = m_cover; M['vsym::tag'] = m_tag; M['vsym::tag_i'] = m_tag_i
     M['vsym::expect_panic'] = m_expect_panic; M['vsym::spawn'] = m_spawn; M['vsym::join'] = m_join; M['vsym::yield_now'] = m_yield; M['vsym::current_tid'] = m_current_tid; M['vsym::block_on_lock'] = m_block_on_lock
     for k in [k for k in M if k.startswith('vsym::')]: M[k[6:]] = M[k]
@@ -521,6 +536,7 @@ def display_value(ip, v, ity=None):
     if isinstance(v, (str, Term)) and not (isinstance(v, Term) and v.sort != 'String'): return v
     if isinstance(v, bool): return "true" if v else "false"
     if isinstance(v, int): return str(v)
+    if isinstance(v, float): return str(int(v)) if v == int(v) and abs(v) < 1e16 else repr(v)
     if isinstance(v, Term) and v.sort == 'Int': return IntStr(v, ity)
     if isinstance(v, Term) and v.sort == 'Bool': return T('(ite %s "true" "false")', 'String', v.s)
     if isinstance(v, Agg):
@@ -647,9 +663,12 @@ def m_iter_for_each(ip, c, a):
         if r.variant == 'None': return UNIT
         ip.call_value(a[1], [r.fields[0].v])
 def m_vec_iter(ip, c, a): return m_slice_iter(ip, c, a)
+def m_slice_iter_len(ip, c, a):
+    it = unref(a[0]); return len(it.fields[0].v) - it.fields[1].v
 def install5(ip):
     ip.pattern_models = [
         (re.compile(r' as IntoIterator>::into_iter$'), m_into_iter),
+        (re.compile(r'^<std::(slice::Iter|vec::IntoIter)<.*> as ExactSizeIterator>::len$'), m_slice_iter_len),
         (re.compile(r'^<std::vec::IntoIter<.*> as Iterator>::next$'), m_vec_into_iter_next),
         (re.compile(r'^<(Map|Filter|Enumerate)<.*> as Iterator>::next$'), m_iter_next),
         (re.compile(r' as Iterator>::map$'), m_iter_map), (re.compile(r' as Iterator>::filter$'), m_iter_filter),
@@ -1112,5 +1131,8 @@ def install12(ip):
         P(r'^String::from_utf8$', m_string_from_utf8), P(r'impl str>::as_bytes$|^String::as_bytes$', m_as_bytes), P(r'^String::into_bytes$', m_into_bytes),
     ] + ip.pattern_models
 
+def install13(ip):
+    ip.pattern_models = ip.pattern_models + [(re.compile(r' as Clone>::clone$'), m_clone_generic)]
+
 def install_all(ip):
-    install(ip); install2(ip); install3(ip); install4(ip); install5(ip); install6(ip); install7(ip); install8(ip); install9(ip); install10(ip); install11(ip); install12(ip)
+    install(ip); install2(ip); install3(ip); install4(ip); install5(ip); install6(ip); install7(ip); install8(ip); install9(ip); install10(ip); install11(ip); install12(ip); install13(ip)
